@@ -49,6 +49,7 @@ namespace pika {
             if (ec) { return; }
         }
 
+        PIKA_VERIF_POST("mtx.own", this, 1, owner_id_ != threads::detail::invalid_thread_id ? 1 : 0);
         util::register_lock(this);
         owner_id_ = self_id;
     }
@@ -63,6 +64,7 @@ namespace pika {
 
         threads::detail::thread_id_type self_id = pika::threads::detail::get_self_id();
         util::register_lock(this);
+        PIKA_VERIF_POST("mtx.own", this, 2, owner_id_ != threads::detail::invalid_thread_id ? 1 : 0);
         owner_id_ = self_id;
         return true;
     }
@@ -84,6 +86,7 @@ namespace pika {
             return;
         }
 
+        PIKA_VERIF_POST("mtx.disown", this, 0, 0);
         owner_id_ = threads::detail::invalid_thread_id;
 
         {
@@ -126,6 +129,7 @@ namespace pika {
             }
         }
 
+        PIKA_VERIF_POST("mtx.own", this, 3, owner_id_ != threads::detail::invalid_thread_id ? 1 : 0);
         util::register_lock(this);
         owner_id_ = self_id;
         return true;
